@@ -8,6 +8,8 @@ the model continues.  The theorems say what "continue" means after a failure.
 -/
 import GoNfsd.Lemmas.FsStep
 import GoNfsd.Model.Txn
+import GoNfsd.Gen.Skeleton
+import GoNfsd.Model.Skeleton
 import GoNfsd.Lemmas.BlockTree
 
 namespace GoNfsd.Props.C09
@@ -206,5 +208,23 @@ theorem failed_mapping_moves_no_file_block (s : S) (blks : List Nat) (bn bn' : N
   rw [lookup_eq_ptr, lookup_eq_ptr]
   obtain ⟨hv, hd⟩ := posOf_valid bn' hbn'
   exact (bmap_ok s blks bn h hbn).miss hfail _ hv hd
+
+/-- what the code does (statement lists of fstxn/commit.go REGENERATED on every run): `Abort` calls `forgetInodes` on
+    every path, before it gives the locks back; `forgetInodes` is one loop over ALL inodes of the transaction with no way
+    out; and a commit the journal refuses ends in `Abort`.  This is the hypothesis of `aborted_transaction_leaves_no_trace`
+    (and of the abort steps of models M8d and M8e): the cached copies an aborted transaction may have changed in place —
+    `bmap` stores a freshly allocated index block in the cached inode before anything is dirty — do not survive it.
+    (Seeded changes C10m / C12m keep the inodes of a transaction "that wrote nothing".) -/
+theorem an_abort_forgets_every_inode_of_the_transaction :
+    (∀ f ∈ GoNfsd.Gen.Skeleton.abortPaths, f.1 = "Abort" → GoNfsd.Model.Skeleton.abortForgets f.2 = true) ∧
+    (∀ f ∈ GoNfsd.Gen.Skeleton.abortPaths, f.1 = "forgetInodes" → GoNfsd.Model.Skeleton.forgetsAll f.2 = true) ∧
+    (∀ f ∈ GoNfsd.Gen.Skeleton.abortPaths, f.1 = "commitWait" → GoNfsd.Model.Skeleton.refusedCommitAborts f.2 = true) ∧
+    (GoNfsd.Gen.Skeleton.abortPaths.map (·.1)).contains "Abort" = true ∧
+    (GoNfsd.Gen.Skeleton.abortPaths.map (·.1)).contains "forgetInodes" = true ∧
+    (GoNfsd.Gen.Skeleton.abortPaths.map (·.1)).contains "commitWait" = true := by decide
+
+/-- the checkers reject the two renderings of "forget only when something is dirty" -/
+example : GoNfsd.Model.Skeleton.abortForgets ["call:verifEvent", "if", "call:forgetInodes", "fi", "call:releaseInodes", "call:PostAbort", "call:verifEvent", "return"] = false := by decide
+example : GoNfsd.Model.Skeleton.forgetsAll ["if", "return", "fi", "for", "set:LookupSlot", "if", "set", "fi", "rof"] = false := by decide
 
 end GoNfsd.Props.C09
